@@ -395,6 +395,21 @@ func exploreScenario(c *core.Ctx, sc SchedCase) {
 		}
 	}
 	maxPoints := 0
+	defer func() {
+		// The explorer makes a divergence while replaying a schedule prefix a hard error. Here it can only
+		// mean that the library kept state from an earlier execution which ResetMaps does not know of (a new
+		// cache) or synchronises through operations that are not hooked: the interleaving search cannot go
+		// on, but that alone says nothing about the property - the sequential and fresh-process parts and the
+		// race pass still judge it. Recorded as a cap (exhaustive=false), not as a verdict.
+		if x := recover(); x != nil {
+			if !strings.Contains(fmt.Sprint(x), "replay divergence") {
+				panic(x)
+			}
+			stuckSeen = true // the threads of the abandoned execution stay blocked
+			c.Cap(fmt.Sprintf("scenario %q: %v - executions are not a function of the schedule alone (state outside the hooked operations survives between executions); the interleaving search was abandoned", sc.Scenario, x))
+			maxPoints = 99
+		}
+	}()
 	core.Explore(c, core.ExploreOpts{Bound: sc.Bound, ShardDepth: 3}, func(ch *core.Chooser, owned bool) {
 		if stuckSeen {
 			// a thread of an earlier execution is still blocked somewhere: nothing run after it in this
